@@ -97,6 +97,8 @@ def _unify(pat: Any, node: Any, env: dict[str, Any], lenient: bool = False) -> N
         else:
             env[key] = node
         return
+    if lenient and isinstance(pat, ast.cmpop) and isinstance(node, ast.cmpop):
+        return  # the message names another comparison operator than the source has: the reader follows the message
     if type(pat) is not type(node):
         raise NoMatch
     if isinstance(pat, ast.AST):
